@@ -8,6 +8,7 @@ from . import runner
 
 PROPS = {
     "C03": ("c03", "other"),
+    "C05": ("c05", "other"),
     "C12": ("c12_c13", "translation_validation"),
     "C13": ("c12_c13", "translation_validation"),
 }
